@@ -92,3 +92,73 @@ def rand_glyphs(rng, n=None, fractional=False, vertical=False):
             g["box"] = [x0, y0, x0 + rng.choice([10, 100, 400]), y0 + rng.choice([10, 500, 700])]
         out[nm] = g
     return out
+
+
+# ---- deep snapshots of sources (C07 / C08 / C19 observers) -------------------------------------------------
+def _glyph_snap(g):
+    contours = []
+    for c in g:
+        pts = []
+        for p in (c.points if hasattr(c, "points") else c):
+            pts.append((getattr(p, "x", None), getattr(p, "y", None), getattr(p, "type", getattr(p, "segmentType", None)),
+                        getattr(p, "smooth", None), getattr(p, "name", None), getattr(p, "identifier", None)))
+        contours.append((tuple(pts), getattr(c, "identifier", None)))
+    comps = [(c.baseGlyph, tuple(c.transformation), getattr(c, "identifier", None)) for c in g.components]
+    anchors = [(a.name, a.x, a.y, getattr(a, "identifier", None), getattr(a, "color", None)) for a in g.anchors]
+    import copy
+
+    return {
+        "name": g.name, "width": g.width, "height": g.height, "unicodes": list(g.unicodes), "contours": contours,
+        "components": comps, "anchors": anchors, "lib": copy.deepcopy(dict(g.lib)),
+    }
+
+
+def snapshot_ufo(f):
+    """Everything property C07 names: every layer's glyphs, font lib, info, kerning, groups, feature text."""
+    import copy
+
+    from fontTools.ufoLib import fontInfoAttributesVersion3
+
+    layers = {}
+    for layer in f.layers:
+        layers[layer.name] = {"lib": copy.deepcopy(dict(layer.lib)), "glyphs": {g.name: _glyph_snap(g) for g in layer}, "order": [g.name for g in layer]}
+    info = {a: copy.deepcopy(getattr(f.info, a, None)) for a in sorted(fontInfoAttributesVersion3)}
+    return {
+        "layers": layers, "layerOrder": [layer.name for layer in f.layers], "lib": copy.deepcopy(dict(f.lib)), "info": info,
+        "kerning": dict(f.kerning), "groups": {k: list(v) for k, v in f.groups.items()}, "features": f.features.text,
+        "glyphOrder": list(f.glyphOrder),
+    }
+
+
+def snapshot_designspace(ds):
+    import copy
+
+    d = ds.asdict() if hasattr(ds, "asdict") else {}
+    return {"doc": copy.deepcopy(d), "fonts": [id(s.font) for s in ds.sources], "names": [s.name for s in ds.sources],
+            "lib": copy.deepcopy(dict(ds.lib)), "ufos": [snapshot_ufo(s.font) if s.font is not None else None for s in ds.sources]}
+
+
+def diff_paths(a, b, path="", out=None, limit=8):
+    """Human-readable list of where two snapshots differ."""
+    out = [] if out is None else out
+    if len(out) >= limit:
+        return out
+    if type(a) is not type(b):
+        out.append(f"{path}: {a!r:.80} -> {b!r:.80}")
+    elif isinstance(a, dict):
+        for k in sorted(set(a) | set(b), key=str):
+            if k not in a:
+                out.append(f"{path}/{k}: added {b[k]!r:.60}")
+            elif k not in b:
+                out.append(f"{path}/{k}: removed")
+            else:
+                diff_paths(a[k], b[k], f"{path}/{k}", out, limit)
+    elif isinstance(a, (list, tuple)):
+        if len(a) != len(b):
+            out.append(f"{path}: length {len(a)} -> {len(b)}")
+        else:
+            for i, (x, y) in enumerate(zip(a, b)):
+                diff_paths(x, y, f"{path}[{i}]", out, limit)
+    elif a != b:
+        out.append(f"{path}: {a!r:.80} -> {b!r:.80}")
+    return out
